@@ -254,8 +254,10 @@ class Module:
                 self.tree = ast.parse(src, filename=rel)
             except SyntaxError as e:
                 raise AnalysisError('cannot parse %s: %s' % (rel, e))
-            from .canon import canonicalize
-            self.tree = canonicalize(self.tree)
+        # canonical spelling (idempotent; pre-built trees of the normalised
+        # views contain freshly inlined code)
+        from .canon import canonicalize
+        self.tree = canonicalize(self.tree)
         self.classes = {}
         self.funcs   = {}
         self.assigns = {}     # name -> [value expr] (module top level)
